@@ -450,8 +450,9 @@ void top_level_op(World& W, Choices& c)
   }
   if (is_prop("C17"))
   {
-    switch (c.weighted({5, 8, 3, 2, 2, 2, 2, 1, 1}))
+    switch (c.weighted({5, 8, 3, 2, 2, 2, 2, 1, 1, 2}))
     {
+    case 9: op_remove_then_flush(W); break;
     case 0: op_poll(W, true); break;
     case 1: op_log(W, pick_worker(W), false, 0); break;
     case 2: op_create_logger(W); break;
